@@ -531,7 +531,9 @@ def apply_contract(it, c, args, kwargs):
         raise Unsupported('contract %s: %s' % (c.name, c.bind_error))
     env = bind_params(it, c, args, kwargs)
     caller = it.fn.qual if it.fn else '?'
+    scope = st.fresh_name('@' + c.name)
     sp = Interp(st, c.glob, it.reg, it.fn, pure=True, env=env)
+    sp.scope = scope
     for cl in c.clauses:
         if cl.kind == 'let':
             from .verify import name_quantified
@@ -564,6 +566,7 @@ def apply_contract(it, c, args, kwargs):
     st.assume(result != V.ABSENT)
     specials = {'result': result, '__pre_alloc__': pre_alloc}
     post = Interp(st, c.glob, it.reg, it.fn, pure=True, env=env, old=(pre_heap, pre_env), specials=specials)
+    post.scope = scope
     if not c.verified:
         st.trusted.add(c.describe())
     if c.may_raise() and not it.pure:
@@ -572,6 +575,7 @@ def apply_contract(it, c, args, kwargs):
             exc = new_symbolic_exception(it, c.raises_only, c.glob)
             specials_r = dict(specials, raised=exc)
             postr = Interp(st, c.glob, it.reg, it.fn, pure=True, env=env, old=(pre_heap, pre_env), specials=specials_r)
+            postr.scope = scope
             for cl in c.clauses:
                 if cl.kind == 'ensures_raises':
                     ecls = postr.ev(cl.extra)
